@@ -246,6 +246,13 @@ fn rocket_welcome(execute_state: &rocket::State<ExecutorStateArc>) -> RawHtml<St
     RawHtml(page_source)
 }
 
+/// Verification hook: the routes of the processor, so that a harness can dispatch requests to them
+/// in-process (rocket's local client) without opening a socket.
+#[cfg(rufsm_verif)]
+pub fn verif_routes() -> Vec<rocket::Route> {
+    routes![rocket_welcome, rocket_receive_event, rocket_get_favicon]
+}
+
 impl BasicHTTPEventIOProcessor {
     pub async fn new(
         ip_addr: IpAddr,
